@@ -174,8 +174,22 @@ func runCodec(c *codecCase, cov func(string)) (what, detail string) {
 		orig := append([]byte(nil), data...)
 		t := newKind(kind)
 		t.DirectAddN(cp(tgt)...)
-		if c.Seed%2 == 1 {
+		tp := "plain"
+		if len(args) > 4 {
+			tp = args[4].(string)
+		}
+		var held *roaring.Bitmap
+		switch tp {
+		case "optimized":
 			t.Optimize()
+		case "shared":
+			// a derived value is outstanding (what fragment.row does): the target's
+			// containers are frozen and shared with it
+			if p.Keys[p.K-1] < 1<<48-1 && c.Inner != "manykeys" {
+				held = t.OffsetRange(0, 0, (p.Keys[p.K-1]+1)<<16)
+			} else {
+				held = t.Freeze()
+			}
 		}
 		if cov != nil {
 			cov("import:" + used + ":" + kind + ":" + ContainerTypes(t))
@@ -202,6 +216,11 @@ func runCodec(c *codecCase, cov func(string)) (what, detail string) {
 		}
 		if got := t.Count(); got != uint64(len(want)) {
 			return "import_count", fmt.Sprintf("after import Count() = %d, want %d", got, len(want))
+		}
+		if held != nil {
+			if got := held.Slice(); !gamma.Equal(tgt, got) {
+				return "import_changed_derived", "a value derived from the target before the import changed: " + gamma.Diff(tgt, got)
+			}
 		}
 		// equal to decode-then-merge on the real code as well
 		scribble(data) // the payload must not be referenced any more
